@@ -32,7 +32,7 @@ def main(chk):
 
 MANIFEST = {
     'category': 'proof',
-    'technique': 'Coq proofs over struct declarations as data (induction on the embedding tree) on an executable model of rget/resolve/init, the name trie, isEmptyValue (safe and unsafe) and the kStruct loops + vm_compute correspondence against TypeInfos.get through a hook on reflect.StructOf-generated declarations + direct oracles on all five formats',
-    'text': 'For ALL struct declarations (finite embedding trees, by value or pointer, any codec/json tags): C16_fields resolve = documented field list (same names, options, paths, order) when no type embeds itself; C16_resolve sequential resolve/init = "shallowest wins, first declared wins a tie"; C16_names_unique; C16_lookup / C16_lookup_unknown (trie search finds exactly the field); C16_encode kStruct/kStructSimple = documented map/array for every field codec, given the emptiness test agrees with the docs; C16_omit (default build, RecursiveEmptyCheck off) on plain values, C16_omit_refuted (F05-1 and its codec.safe mirror); C16_sopts_own, C16_sopts_refuted (F16-4: promoted _struct); C16_decode / C16_decode_unknown / C16_decode_array_extra (unknown key => error iff ErrorIfNoField). Tied by TypeInfos.get / siForEncName / isEmptyValue through a hook on reflect.StructOf-generated declarations + fixed corpus, and by struct-vs-map oracles over five formats in both builds.',
+    'technique': 'Coq proofs over struct declarations as data (induction on the embedding tree) on an executable model of rget/resolve/init, the name trie, isEmptyValue (safe and unsafe) and the kStruct loops + vm_compute correspondence against TypeInfos.get through a hook on reflect.StructOf-generated declarations + direct oracles on all five formats; executable model of the Encoder scratch-list pool (sfiRvFreeList get/put, shared backing arrays) with a proof that every struct emits what it gathered whatever the Encoder encoded before, tied by driving get/put through a hook and by a deterministic encoder-history stream (one Encoder, many values) judged against fresh Encoders and a deep map/array model',
+    'text': 'For ALL struct declarations (finite embedding trees, by value or pointer, any codec/json tags): C16_fields resolve = documented field list (same names, options, paths, order) when no type embeds itself; C16_resolve sequential resolve/init = "shallowest wins, first declared wins a tie"; C16_names_unique; C16_lookup / C16_lookup_unknown (trie search finds exactly the field); C16_encode kStruct/kStructSimple = documented map/array for every field codec, given the emptiness test agrees with the docs; C16_omit (default build, RecursiveEmptyCheck off) on plain values, C16_omit_refuted (F05-1 and its codec.safe mirror); C16_sopts_own, C16_sopts_refuted (F16-4: promoted _struct); C16_decode / C16_decode_unknown / C16_decode_array_extra (unknown key => error iff ErrorIfNoField); ENCODER HISTORY: C16_scratch_exclusive (get never hands out a scratch list that is still pooled, it is long enough, the pool stays duplicate-free), C16_scratch_history / C16_scratch_any_pool (whatever sequence of struct values, nested to any depth, one Encoder has encoded before, every struct of what it encodes next emits exactly the entries it gathered). Tied by TypeInfos.get / siForEncName / isEmptyValue through a hook on reflect.StructOf-generated declarations + fixed corpus, and by struct-vs-map oracles over five formats in both builds; hist stream: about 1400 two- and three-level nestings of general-encoder structs (omitempty, int/uint keys, toarray, escaped names, more than 8 fields, MissingFielder) x 5 formats x Canonical x StructToArray encoded by long-lived Encoders (ResetBytes / Reset, slices, maps, after a failed Encode) = fresh Encoder = deep model; pool stream: get/put sequences through the hook vs the pool model.',
     'note': 'Repaired through the check: F16-2 (third inlining of a type dropped), F16-3 (empty unknown key not rejected), F16-5 (json html chars in field names). Recorded: F05-1/F05-1s, F16-4. Not proved in Coq: untouched-fields lemma for decode (oracle + correspondence only), _struct lookup when no struct declares it (BFS fuel lemma), RecursiveEmptyCheck emptiness vs docs (docs say "might"), float key types, recursive type declarations.',
 }
